@@ -284,9 +284,9 @@ func blockedYield(me int, mustSwitch bool) {
 }
 
 // The simulated clock (hook.SimNow) creeps by a microsecond per yield and, in runs that ask for it, jumps forward
-// by anything between a millisecond and a month at points chosen by a generator of its own (a pure function of the
+// by anything between a millisecond and three days (code that walks a window second by second is legitimate: a month would cost it millions of iterations) at points chosen by a generator of its own (a pure function of the
 // run seed and the number of yields so far).  It never goes back: the tree's time.Since would not see that either.
-var clockJumps = [...]int64{1e6, 1e6, 50e6, 50e6, 1e9, 1e9, 10e9, 61e9, 61e9, 600e9, 3600e9, 25 * 3600e9, 31 * 24 * 3600e9}
+var clockJumps = [...]int64{1e6, 1e6, 50e6, 50e6, 1e9, 1e9, 10e9, 61e9, 61e9, 600e9, 3600e9, 25 * 3600e9, 3 * 24 * 3600e9}
 
 const (
 	simEpoch   = int64(1767225600e9)            // 2026-01-01T00:00:00Z
@@ -340,7 +340,9 @@ func clockTick() {
 	if sClkRate > 0 {
 		sClkLeft--
 		if sClkLeft == 0 {
-			if hook.SimNow < simEpoch+simHorizon { // int64 nanoseconds end in 2262: no jumps beyond 2176, the clock then only creeps
+			// at most eight jumps per run: code whose work is proportional to the time that has passed (a window
+			// advanced second by second) must be able to catch up with the clock
+			if hook.SimNow < simEpoch+simHorizon && sClkJumps < 8 { // int64 nanoseconds end in 2262: no jumps beyond 2176, the clock then only creeps
 				hook.SimNow += clockJumps[clkRnd()%uint64(len(clockJumps))]
 				sClkJumps++
 			}
